@@ -24,7 +24,7 @@ deriving Repr, Inhabited
 inductive Stmt where
   | block (body : List Stmt)
   | loop (x : String) (coll : CExpr) (body : List Stmt)
-  | ite (c : CExpr) (thn : List Stmt) (els : Option (List Stmt))
+  | ite (c : CExpr) (thn : List Stmt) (els : List Stmt)      -- no `else` = empty list
   | decl (ty : String) (n : String) (init : Option CExpr)
   | set (x : String) (e : CExpr)
   | push (x : String) (e : CExpr)
